@@ -527,7 +527,7 @@ def check_property(prop, tier="quick", tree="/repo", record=False, jobs=None, le
     xres = {"inputs": len(xs), "agree": 0, "disagree": 0}
     if xs:
         os.makedirs(replay_dir, exist_ok=True)
-        bpath = os.path.join(replay_dir, f"{prop}-xcheck-batch.json")
+        bpath = os.path.join(replay_dir, f"{prop}-xcheck-batch-{os.getpid()}.json")    # unique: checks may run concurrently
         with open(bpath, "w") as f:
             json.dump(xs, f)
         env = dict(os.environ, NASIM_TREE=tree, PYTHONPATH=tree)
